@@ -9,7 +9,7 @@ CONSTS = ("IGNORE_INST_ADDR", "SKIP_TO_END_OF_PATTERN_NODE", "SKIP_TO_END_OF_OPE
 ASSUMPTIONS = ["patterns that can match the empty sequence are excluded (they cover no instruction)",
                "lower-case hexadecimal addresses; records of at most 1000 characters",
                "the shipped @any wildcard crosses instruction boundaries: known finding D6"]
-FEATS = {"ops", "logic", "not", "times", "ops_logic", "deref", "instcap"}
+FEATS = {"ops", "logic", "not", "times", "ops_logic", "deref"}
 
 
 def aligned(ctx, o):
